@@ -2,7 +2,6 @@ package props
 
 import (
 	"fmt"
-	"os"
 	"go/token"
 	"go/types"
 	"strings"
@@ -111,25 +110,46 @@ func c17g2Backup(c *eng.Ctx) {
 	} else {
 		c17provAll(c, f, "backup carries the archive read from storage", la[0], pv)
 	}
-	if os.Getenv("OBSA_DBG17") != "" {
-		g := nfGCallOK(f, `^keysutil\.\(\*Policy\)\.LoadArchive$`)
-		for _, e := range g.Edges {
-			fmt.Println("DBG edge from b", e.From.Index, "succ", e.Succ)
+	// the guard is the success of the very LoadArchive call(s) of Backup whose result goes into
+	// the backup, not of some helper that happens to read the archive as well (Persist does)
+	c.Clause("R2", "C17.3")
+	g := eng.Guard{Desc: "success edge of the LoadArchive call whose result is embedded"}
+	for _, k := range la {
+		g.Edges = append(g.Edges, eng.CallOKEdges(k)...)
+		g.Pass = append(g.Pass, k)
+	}
+	okRets := eng.SuccessReturns(f, 1)
+	c.Cut(f, "backup returned", okRets, g, nil)
+	// ... and it is embedded on every path to a successful return: no condition other than
+	// the success of that read decides whether the backup carries the archive
+	c.Clause("R4", "C17.3")
+	site := "every backup returned carries the archive (store of LoadArchive#0 into ArchivedKeys on every path)"
+	var embeds []ssa.Instruction
+	for _, a := range c17allocOfSuffix(f, "keysutil.KeyData") {
+		if a.Referrers() == nil {
+			continue
 		}
-		for _, p := range g.Pass {
-			fmt.Println("DBG pass", eng.InstrStr(p), c.P.Pos(p.Pos()))
-		}
-		for _, st := range nfSites(f, `^keysutil\.\(\*Policy\)\.LoadArchive$`) {
-			for _, e := range st.Effs {
-				fmt.Println("DBG site", eng.InstrStr(st.At), "fwd", st.Fwd, "eff in", eng.FuncName(e.Fn), c.P.Pos(e.Call.In.Pos()))
+		for _, r := range *a.Referrers() {
+			fa, ok := r.(*ssa.FieldAddr)
+			if !ok || fa.Referrers() == nil || eng.FieldVar(fa) == nil || eng.FieldVar(fa).Name() != "ArchivedKeys" {
+				continue
+			}
+			for _, rr := range *fa.Referrers() {
+				if st, ok := rr.(*ssa.Store); ok && st.Addr == ssa.Value(fa) {
+					if ok, _, _ := c17originsMatch(st.Val, `^call:keysutil\.\(\*Policy\)\.LoadArchive#0$`); ok {
+						embeds = append(embeds, st)
+					}
+				}
 			}
 		}
-		for _, r := range eng.SuccessReturns(f, 1) {
-			fmt.Println("DBG sink b", r.Block().Index, eng.InstrStr(r))
-		}
 	}
-	c.Clause("R2", "C17.3")
-	c.Cut(f, "backup returned", eng.SuccessReturns(f, 1), nfGCallOK(f, `^keysutil\.\(\*Policy\)\.LoadArchive$`), nil)
+	if len(embeds) == 0 {
+		c.Violation(f, site, f.Pos(), "no store of LoadArchive's result into KeyData.ArchivedKeys", nil)
+	} else if h := eng.Reach(eng.Query{Fn: f, Barriers: embeds, Target: eng.IsTarget(okRets)}); h != nil {
+		c.Violation(f, site, h.Instr.Pos(), "a backup can be returned without the archive having been embedded: embedding it became conditional on something else than the archive read succeeding; the restored key then gets an archive of empty slots", h.Witness)
+	} else {
+		c.OK(f, site, embeds[0].Pos(), "every path to a successful return passes the store")
+	}
 	c.Clause("R3", "C17.3")
 	c.Before(f, "Persist (adjusts the archive)", instrsOf(per), "LoadArchive", instrsOf(la))
 }
@@ -269,7 +289,7 @@ func c17g2Rewrap(c *eng.Ctx) {
 		return
 	}
 	c.Clause("R2", "C17.2")
-	c.Cut(f, "re-encryption", instrsOf(enc), nfGCallOK(f, decPat), nil)
+	c.Cut(f, "re-encryption", instrsOf(enc), c17GCallOK(f, decPat), nil)
 	c.Clause("R5", "C17.2")
 	var pv []c17pv
 	for _, e := range enc {
